@@ -205,7 +205,13 @@ def run(ctx):
     n_mask = 0
     for c in walk_no_nested(validate.node):
         if isinstance(c, ast.Call) and call_name(c) == "_run_checks":
-            for kw in c.keywords:
+            class _KW:      # (keyword or positional: both forms of passing the mask)
+                def __init__(self, arg, value):
+                    self.arg, self.value = arg, value
+            masks = [_KW(kw.arg, kw.value) for kw in c.keywords if kw.arg and "mask" in kw.arg]
+            masks += [_KW(pn, cg.arg(c, pn)) for pn in cg.param_order.get(id(c), []) if "mask" in pn and cg.arg(c, pn) is not None
+                      and pn not in {m.arg for m in masks}]
+            for kw in masks:
                 if kw.arg and "mask" in kw.arg:
                     n_mask += 1
                     bad = depends_on(rdv, kw.value, c, lambda y: isinstance(y, ast.Call) and call_name(y) == "split_delay_tags")
